@@ -74,3 +74,52 @@ func verifHosts(l *roundRobinLoadBalancer) []*Host { return l.hosts.Load().([]*H
 //@ func proxycore.NewPasswordAuth
 //@   trusted
 //@   modifies nothing
+
+// ---------------------------------------------------------------------------------------------
+// C16: reconnect back-off ("delays that stay within the configured backoff bounds and reset after
+// success") and outage reporting
+// ---------------------------------------------------------------------------------------------
+
+//@ type proxycore.defaultReconnectPolicy
+//@   invariant self.baseDelay > 0 && self.maxDelay > 0
+//@   invariant self.attempts >= 0 && self.attempts <= self.maxAttempts
+//@   invariant self.maxAttempts >= 0 && self.maxAttempts <= 62 && pow2(self.maxAttempts) <= self.baseDelay && self.baseDelay < pow2(self.maxAttempts + 1)
+
+// calcMaxAttempts = floor(log2(baseDelay))
+//@ func proxycore.calcMaxAttempts [C16]
+//@   requires baseDelay > 0
+//@   ensures result >= 0 && result <= 62 && pow2(result) <= baseDelay && baseDelay < pow2(result + 1)
+//@   modifies nothing
+
+//@ func proxycore.NewReconnectPolicyWithDelays [C16]
+//@   requires baseDelay > 0 && maxDelay > 0
+//@   ensures typeis(result, *defaultReconnectPolicy) && fresh(as(result, *defaultReconnectPolicy))
+//@   ensures inv(as(result, *defaultReconnectPolicy))
+//@   ensures as(result, *defaultReconnectPolicy).attempts == 0
+//@   ensures as(result, *defaultReconnectPolicy).baseDelay == baseDelay && as(result, *defaultReconnectPolicy).maxDelay == maxDelay
+//@   modifies nothing
+
+// NextDelay: the delay lies between min(base,max) and max; the attempt counter grows by one until the cap.
+//@ func proxycore.defaultReconnectPolicy.NextDelay [C16]
+//@   requires d != nil && inv(d)
+//@   replay verifReplayNextDelay(d.baseDelay, d.maxDelay, d.attempts)
+//@   ensures inv(d)
+//@   ensures upper: result <= d.maxDelay
+//@   ensures lower: result >= min(d.baseDelay, d.maxDelay)
+//@   known lower: old(d.attempts) >= 43 || d.baseDelay >= 4611686018427387904
+//@   ensures counting: old(d.attempts) < d.maxAttempts ==> d.attempts == old(d.attempts) + 1
+//@   ensures capped: old(d.attempts) >= d.maxAttempts ==> d.attempts == old(d.attempts) && result == d.maxDelay
+//@   ensures d.baseDelay == old(d.baseDelay) && d.maxDelay == old(d.maxDelay) && d.maxAttempts == old(d.maxAttempts)
+//@   modifies d.attempts
+
+//@ func proxycore.defaultReconnectPolicy.Reset [C16]
+//@   requires d != nil && inv(d)
+//@   ensures d.attempts == 0 && inv(d)
+//@   modifies d.attempts
+
+//@ func proxycore.defaultReconnectPolicy.Clone [C16]
+//@   requires d.baseDelay > 0 && d.maxDelay > 0
+//@   ensures typeis(result, *defaultReconnectPolicy) && fresh(as(result, *defaultReconnectPolicy))
+//@   ensures inv(as(result, *defaultReconnectPolicy)) && as(result, *defaultReconnectPolicy).attempts == 0
+//@   ensures as(result, *defaultReconnectPolicy).baseDelay == d.baseDelay && as(result, *defaultReconnectPolicy).maxDelay == d.maxDelay
+//@   modifies nothing
